@@ -37,7 +37,9 @@ FULL = {
     'model_ec': {'id': 'a1b2c3d4', 'type': 'proc', 'desc': 'Marker Chip 1.0'},
     'attn_types': {'120': 'marker attention', '0': 'zero attention'},
     'signatures': {'1a2b': ['MARKER_SIG', {'77': 'marker bit description', '0': 'bit zero'}], '0000': ['ZERO_SIG', {'255': 'bit 255'}]},
-    'registers': {'aabbcc': ['MARKER_REGISTER_WITH_A_VERY_LONG_NAME_INDEED', {'0': '0x00000000DEADBEEF', '5': '0x8000000012345678'}],
+    'registers': {'aabbcc': ['MARKER_REGISTER_WITH_A_VERY_LONG_NAME_INDEED', {'0': '0x00000000DEADBEEF', '5': '0x8000000012345678',
+                                                                            # instance keys are decimal: 10, 16 and 255 are not 'a', '10' and 'ff'
+                                                                            '10': '0x0000000010101010', '16': '0x0000000016161616', '255': '0x00000000FFFF00FF'}],
                   '000001': ['REG1', {'1': '0x10'}]},
 }
 
@@ -379,7 +381,7 @@ def run_chunk(chunk):
             res.outcomes.add('ok:sig_all')
             res.samples.append({'k': 'sig', 'cfg': chunk['cfg'], 'sig': sig_bytes(tuple(chunk['prefix']) + (1,) * 10).hex(), 'route': 'parser-lower'})
         elif k == 'regs':
-            ids = [('aabbcc', 0), ('AABBCC', 5), ('000001', 1), ('aabbcc', 9), ('123456', 255)]
+            ids = [('aabbcc', 0), ('AABBCC', 5), ('000001', 1), ('aabbcc', 9), ('123456', 255), ('aabbcc', 10), ('AABBCC', 16), ('aabbcc', 255)]
             ecs = ['a1b2c3d4', 'A1B2C3D4', '00000000']
             for nchips in range(0, 3):
                 for nregs in range(0, 3):
@@ -396,7 +398,7 @@ def run_chunk(chunk):
                             _do(res, {'k': 'regs', 'cfg': chunk['cfg'], 'chips': chips}, step=97)
             for ec in ('a1b2c3d4', 'A1B2C3D4', 'a1B2c3D4', '0badc0de', '00000000'):
                 for rid in ('aabbcc', 'AABBCC', 'AaBbCc', '000001', 'ffffff'):
-                    for inst in (0, 1, 5, 255):
+                    for inst in (0, 1, 5, 10, 16, 255):
                         for sid in ('1a2b', '1A2B', '0000', 'FFFF'):
                             _do(res, {'k': 'api', 'cfg': chunk['cfg'], 'model_ec': ec, 'id': rid, 'inst': inst, 'sig_id': sid})
         elif k == 'misc':
